@@ -428,7 +428,7 @@ def subsets5():
 
 
 def alphabets():
-    """Nested alphabets FULL > WIDE > CORE > MIN (simplest symbols first)."""
+    """Nested alphabets FULL > MID > CORE > MIN (simplest symbols first)."""
     full = []
     for t in ('lit', 'litf', 'f'):
         for s in subsets5():
@@ -444,35 +444,36 @@ def alphabets():
             full.append(('F', p, d, False))
     full += [('F', 'oth', 1, True), ('F', 'lit', 0, True), ('B', 'sink'), ('B', 'lit')]
 
-    core6 = [('GET',), ('POST',), ('GET', 'POST'), ('GET', 'OPTIONS'), ('LOCK', 'WEBSOCKET'), ()]
-    wide = [('R', t, s) for t in ('lit', 'litf', 'f') for s in core6]
-    wide += [('S', t, kind, True) for t in ('lit', 'litf') for kind in ('X', 'PX', 'P', 'N')]
-    wide += [('S', 'lit', 'PX', False)]
-    wide += [('K', key) for key in ('root', 'lit', 'litc', 'num', 'rest', 'oth')]
-    wide += [('F', 'lit', 0, False), ('F', 'lit', 1, False), ('F', 'oth', 0, False), ('F', 'oth', 1, False),
-             ('F', 'oth', 1, True), ('B', 'sink'), ('B', 'lit')]
+    mid = [('R', 'lit', ('GET',)), ('R', 'lit', ('GET', 'POST')), ('R', 'lit', ('LOCK', 'WEBSOCKET')), ('R', 'lit', ()),
+           ('R', 'litf', ('GET',)), ('R', 'litf', ('GET', 'POST')), ('R', 'litf', ('GET', 'OPTIONS')),
+           ('R', 'f', ('GET', 'OPTIONS')), ('R', 'f', ()), ('R', 'f', ('POST',)),
+           ('S', 'lit', 'X', True), ('S', 'lit', 'PX', True), ('S', 'lit', 'P', True),
+           ('S', 'litf', 'X', True), ('S', 'litf', 'N', True), ('S', 'lit', 'PX', False)]
+    mid += [('K', key) for key in ('root', 'lit', 'litc', 'num', 'rest', 'oth')]
+    mid += [('F', 'lit', 0, False), ('F', 'lit', 1, False), ('F', 'oth', 0, False), ('F', 'oth', 1, False),
+            ('F', 'oth', 1, True), ('B', 'sink')]
 
-    core = [('R', 'lit', ('GET',)), ('R', 'lit', ('POST', 'WEBSOCKET')), ('R', 'litf', ('GET', 'POST')),
-            ('R', 'f', ('GET', 'OPTIONS')), ('R', 'f', ('LOCK',)),
-            ('S', 'lit', 'PX', True), ('S', 'litf', 'X', True), ('S', 'lit', 'P', True),
-            ('K', 'root'), ('K', 'lit'), ('K', 'num'), ('K', 'rest'),
+    core = [('R', 'lit', ('GET',)), ('R', 'lit', ('LOCK', 'WEBSOCKET')), ('R', 'litf', ('GET', 'POST')),
+            ('R', 'f', ('GET', 'OPTIONS')),
+            ('S', 'lit', 'PX', True), ('S', 'lit', 'P', True),
+            ('K', 'root'), ('K', 'lit'), ('K', 'rest'),
             ('F', 'lit', 0, False), ('F', 'lit', 1, False), ('F', 'oth', 0, False), ('F', 'oth', 1, True)]
 
     mini = [('R', 'lit', ('GET',)), ('R', 'litf', ('GET', 'POST')), ('R', 'f', ('GET', 'OPTIONS')),
             ('S', 'lit', 'PX', True), ('S', 'lit', 'P', True),
             ('K', 'root'), ('K', 'lit'), ('K', 'rest'),
-            ('F', 'lit', 0, False), ('F', 'lit', 1, False), ('F', 'oth', 0, False)]
-    for small, big in ((mini, core), (core, wide), (wide, full)):
+            ('F', 'lit', 0, False), ('F', 'lit', 1, False)]
+    for small, big in ((mini, core), (core, mid), (mid, full)):
         for s in small:
             assert s in big, s
-    return {'full': full, 'wide': wide, 'core': core, 'min': mini}
+    return {'full': full, 'mid': mid, 'core': core, 'min': mini}
 
 
 def plan(tier):
     """[(length, alphabet name)] -- every history of that length over that alphabet is run."""
     if tier == 'quick':
-        return [(0, 'full'), (1, 'full'), (2, 'wide'), (3, 'core')]
-    return [(0, 'full'), (1, 'full'), (2, 'full'), (3, 'wide'), (4, 'min')]
+        return [(0, 'full'), (1, 'full'), (2, 'mid'), (3, 'core')]
+    return [(0, 'full'), (1, 'full'), (2, 'full'), (3, 'mid'), (4, 'min')]
 
 
 def history_count(tier):
